@@ -171,7 +171,7 @@ OBS = ["dumps_xyz", "dumps_mol2", "cdump_xyz", "cdump_mol2", "lib_conf", "lib_en
 
 
 class EState:
-    __slots__ = ("ens", "kind", "na", "nb", "mc", "mq", "mw", "mols", "mx", "e2", "fsnap", "its", "hist", "elements", "name")
+    __slots__ = ("ens", "kind", "na", "nb", "mc", "mq", "mw", "mols", "mx", "e2", "fsnap", "its", "hist", "elements", "name", "held")
 
     def __init__(self):
         self.ens = None
@@ -179,7 +179,8 @@ class EState:
         self.na = 0
         self.nb = 0
         self.mc = self.mq = self.mw = None
-        self.its = {}  # slot -> [iterator, pos, mask]
+        self.its = {}  # slot -> [iterator, pos, mask, kept conformers]
+        self.held = None  # [conformer taken at an earlier step, row, how it was taken]
         self.hist = []
         self.fsnap = None
 
@@ -238,6 +239,8 @@ class ESys:
             return f"set[ens.{op[1]}=]" if len(op) < 3 or op[2] == "full" else f"set[ens.{op[1]}=<{op[2]}>]"
         if k == "keep":
             return f"keep[{op[1]}]"
+        if k == "hold":
+            return f"hold[{op[1]}]"
         if k == "obs":
             return f"{op[1]}"
         if k == "next":
@@ -305,6 +308,7 @@ class ESys:
 
     def dispose(self, st):
         st.its.clear()
+        st.held = None
         st.ens = None
 
     def is_nontrivial(self, st):
@@ -317,8 +321,15 @@ class ESys:
         nc, na = st.nc, st.na
         live = bool(st.its)
         # ---- iteration -------------------------------------------------------------------------
+        # ---- a view taken now and held over all later steps (not combined with stepwise iterators) --
+        if st.held is not None:
+            ops.append(("unhold",))
+        elif not live and nc:
+            for how in self.rot(["idx", "iter", "slice"]):
+                for i in sorted({0, nc - 1}):
+                    ops.append(("hold", how, i))
         free = [k for k in range(self.nit) if k not in st.its]
-        if free:
+        if free and st.held is None:
             ops.append(("iter", free[0]))
         for k in sorted(st.its):
             ops.append(("next", k, "r"))
@@ -750,6 +761,28 @@ class ESys:
         if kind == "keep":
             return self._keep(st, op, oc, pre)
 
+        if kind == "hold":
+            _, how, i = op
+            try:
+                if how == "idx":
+                    c = e[i]
+                elif how == "slice":
+                    c = e[i : i + 1][0]
+                else:
+                    it = iter(e)
+                    for _ in range(i + 1):
+                        c = next(it)
+                    del it
+            except Exception as ex:
+                self.viol(st, op, f"{oc}:raised-{exc_name(ex)}", f"taking ens[{i}] ({how}) raised {exc_name(ex)}: {ex}")
+                return False
+            st.held = [c, i, how]
+            return self._check_rect(st, op, oc) and self._check_state(st, op, oc, None, pre, alias=False)
+
+        if kind == "unhold":
+            st.held = None
+            return True
+
         if kind == "obs":
             what = op[1]
             i = op[2] if len(op) > 2 else None
@@ -1032,7 +1065,7 @@ class ESys:
         nc, na = st.nc, st.na
         ok = True
         if self.quiet:
-            return self._touch(st)
+            return self._touch(st, op)
         if after_failure and not self._check_rect(st, op, oc + ":rejected"):
             return False
         # ---- values: nothing but the target changed ------------------------------------------
@@ -1113,9 +1146,11 @@ class ESys:
             ok = False
         if ok and alias:
             ok = self._alias_probe(st, op, oc)
+        if ok:
+            ok = self._held(st, op, False)
         return ok
 
-    def _touch(self, st):
+    def _touch(self, st, op=None):
         """replay mode: exactly the accessor calls of _check_state (same objects, same order), no
         comparisons - the prefix was validated when it was first executed"""
         e = st.ens
@@ -1144,7 +1179,71 @@ class ESys:
                     self.conf_row(st, c), c.coords, c.atomic_charges
         except Exception as ex:
             raise HarnessError(f"replay of a validated prefix: reading raised {exc_name(ex)}: {ex}; hist={st.hist}")
-        return True
+        return self._held(st, op, True)
+
+    def _held(self, st, op, quiet):
+        """A view taken at an earlier step must, after EVERY later step, still be the view of its row:
+        it reads the row of the ensemble's current arrays, its dumps equal those of a fresh ens[row],
+        and writes through it (coords=, atomic_charges=, translate) land in that row and only there.
+        The same real calls are made when a prefix is replayed (quiet), without comparisons."""
+        if st.held is None:
+            return True
+        c, row, how = st.held
+        e = st.ens
+        na = st.na
+        pre_sig = f"held[{how}]:after-{op[0] if op else 'step'}"
+
+        def bad(sym, what):
+            if quiet:
+                raise HarnessError(f"replay of a validated prefix: {pre_sig}:{sym}; hist={st.hist}")
+            self.viol(st, op, f"{pre_sig}:{sym}", f"a conformer taken earlier as ens[{row}] ({how}), after {list(op)}: {what}")
+            return False
+
+        try:
+            r = self.conf_row(st, c)
+            cc, cq = np.array(c.coords, dtype=float), np.array(c.atomic_charges, dtype=float)
+            d1, d2 = c.dumps_xyz(), c.dumps_mol2()
+            f = e[row]
+            f1, f2 = f.dumps_xyz(), f.dumps_mol2()
+        except Exception as ex:
+            return bad(f"read-raised-{exc_name(ex)}", f"reading / dumping it raised {exc_name(ex)}: {ex}")
+        if not quiet:
+            if r != row or not eqnan(cc, st.mc[row]) or not eqnan(cq, st.mq[row]):
+                return bad("does-not-show-its-row", f"it does not read row {row} of the ensemble's current arrays")
+            if d1 != f1 or d2 != f2:
+                return bad("dump-differs-from-fresh-view", f"its dumps differ from those of a fresh ens[{row}]")
+        if not na:
+            return True
+        # writes: values that differ from what the row holds now
+        alt = eqnan(st.mc[row], w_coords(na) + 7.0)
+        newc = w_coords(na) + (9.0 if alt else 7.0)
+        newq = w_charges(na) - (5.0 if eqnan(st.mq[row], w_charges(na) - 3.0) else 3.0)
+        before_c, before_q = st.mc.copy(), st.mq.copy()
+        try:
+            c.coords = newc
+            c.atomic_charges = newq
+            c.translate(TR1)
+        except Exception as ex:
+            return bad(f"write-raised-{exc_name(ex)}", f"writing through it raised {exc_name(ex)}: {ex}")
+        st.mc[row] = newc + TR1
+        st.mq[row] = newq
+        if quiet:
+            return True
+        try:
+            rc, rq = np.array(e.coords, dtype=float), np.array(e.atomic_charges, dtype=float)
+        except Exception as ex:
+            return bad(f"read-raised-{exc_name(ex)}", f"reading the ensemble raised {exc_name(ex)}")
+        if rc.shape != st.mc.shape or rq.shape != st.mq.shape:
+            return bad("write-changes-the-shape", "a write through it changed the shape of the ensemble's arrays")
+        okc, okq = close(rc, st.mc, 1e-9), eqnan(rq, st.mq)
+        if okc and okq:
+            return True
+        others = [i for i in range(st.nc) if i != row]
+        if (others and (not eqnan(rc[others], before_c[others]) or not eqnan(rq[others], before_q[others]))):
+            return bad("write-changes-other-rows", f"a write through it changed rows other than {row}")
+        if eqnan(rc[row], before_c[row]) or eqnan(rq[row], before_q[row]):
+            return bad("write-not-visible-in-ensemble", f"a write through it (coords=, atomic_charges=, translate) left row {row} of the ensemble unchanged")
+        return bad("write-stores-another-value", f"a write through it left another value in row {row}")
 
     def _alias_probe(self, st, op, oc):
         """If the ensemble's arrays share memory with an object that was only an *argument*, confirm
@@ -1386,6 +1485,7 @@ class ESys:
             getattr(e, "_current_mol_index", None),
             its,
             slots,
+            None if st.held is None else (st.held[1], st.held[2]),
             all(a.parent is e for a in e.atoms),
             tuple(int(a.element) for a in e.atoms),
             self.hidden_state(st),
@@ -1560,6 +1660,10 @@ def repro_code(na, seed, hist):
                     "m_scale": f"{c}.scale(2.0)",
                 }[what]
             )
+        elif k == "hold":
+            L.append({"idx": f"held = ens[{op[2]}]", "slice": f"held = ens[{op[2]}:{op[2]}+1][0]", "iter": f"held = list(ens)[{op[2]}]"}[op[1]] + f"; held_row = {op[2]}   # kept over all later steps")
+        elif k == "unhold":
+            L.append("held = None")
         elif k == "keep":
             L.append({"list": "kept = list(ens)", "steps": "it = iter(ens); kept = [next(it) for _ in range(ens.n_conformers)]", "interleaved": "a, b = iter(ens), iter(ens); kept = [next(x) for _ in range(ens.n_conformers) for x in (a, b)]", "sorted": "kept = sorted(ens, key=lambda c: 0)", "max": "kept = [max(ens, key=lambda c: 0)]", "combinations": "import itertools; kept = [c for pair in itertools.combinations(ens, 2) for c in pair]", "index": "kept = [ens[i] for i in range(ens.n_conformers)]; [c for c in ens]", "slice": "kept = ens[0:ens.n_conformers]; [c for c in ens]", "slice_rev": "kept = ens[::-1]; [c for c in ens]"}[op[1]])
             L.append("print([str(c) for c in kept])   # each kept conformer must still stand for its own row")
@@ -1603,6 +1707,10 @@ def repro_code(na, seed, hist):
             L.append("print([str(c) for c in ens])")
         elif k == "nested":
             L.append("print([(str(a), str(b)) for a in ens for b in ens])")
+    if any(o[0] == "hold" for o in hist):
+        L.append("if held is not None:")
+        L.append("    held.coords = held.coords + 1.0; held.translate([1.0, -2.0, 0.5])")
+        L.append("    print('held view reads', held.coords[0], '; ensemble row', ens.coords[held_row][0], '; fresh view', ens[held_row].coords[0])   # all three must agree")
     L.append("print('n_conformers', ens.n_conformers, 'n_atoms', ens.n_atoms, 'coords', ens.coords.shape, 'charges', ens.atomic_charges.shape, 'weights', ens.weights.shape)")
     return "\n".join(L)
 
@@ -1612,7 +1720,7 @@ def repro_code(na, seed, hist):
 # (hidden state that lives where no fingerprint can see it - closures, module-level tables - still
 #  has to survive "something looked at the ensemble, then it grew, then something looks again")
 # =================================================================================================
-D_OBS = ["loop", "nested", "iterator", "keep_list", "dumps_xyz", "dumps_mol2", "center_core", "lib_ens", "w_neg", "keep_index", "center_atom", "cdump_last", "lib_conf_last", "w_slice", "set_weights", "keep_slice", "set_charges_row"]
+D_OBS = ["loop", "nested", "iterator", "keep_list", "dumps_xyz", "dumps_mol2", "center_core", "lib_ens", "w_neg", "keep_index", "center_atom", "cdump_last", "lib_conf_last", "w_slice", "set_weights", "keep_slice", "set_charges_row", "hold_idx", "hold_iter", "hold_slice"]
 D_GROW = [("append", "M0"), ("append", "own0"), ("extend", "L2"), ("extend", "E2"), ("extend", "self"), ("append", "E2c1"), ("extend", "L1"), ("extend", "ownslice"), ("extend", "gen")]
 D_KINDS_QUICK = ["list2", "mol", "atoms0", "ens", "empty", "clib"]
 
@@ -1646,6 +1754,10 @@ def d_expand(st, o):
         return [("set", "weights")]
     if o in ("keep_list", "keep_index", "keep_slice"):
         return [("keep", o[5:])]
+    if o in ("hold_idx", "hold_iter", "hold_slice"):
+        if not nc or st.held is not None:
+            return None
+        return [("hold", o[5:], nc - 1)]
     if o == "set_charges_row":
         return [("set", "charges", "row")] if nc and na else None
     raise HarnessError(o)
@@ -1724,6 +1836,7 @@ def run(ctx):
         "a conformer object is identified with a row by its declared conformer id, else by the memory its coords view",
         "'serialised' is read as: stored through molli.chem.io (MoleculeLibrary / ConformerLibrary); pickling is C06's concern; the dead legacy method ConformerEnsemble.serialize() is not called",
         "dump round trip: an independent 20-line reader per format; coordinates compared at the 6 decimals the writers print, mol2 charges at 3 decimals",
+        "one view may be held (taken by index, from an iterator or from a slice) over all later steps; after every step it is read, dumped, compared with a fresh ens[i] and written through (coords=, atomic_charges=, translate); stepwise iterators are not combined with a held view",
         "the harness's own reads through conformers after each step are part of the history: they are repeated identically when a prefix is replayed",
         "the canonical form leaves array *values* out (no operation of the property branches on them); the per-step comparison with the model is exact (NaN == NaN)",
     ]
